@@ -68,6 +68,9 @@ def run_family(prop: str, fam: str, tier: str, seed: int, num: int, depth: int, 
         finally:
             shutil.rmtree(d, ignore_errors=True)
     profiles = [Profile(seed * 7 + i) for i in range(nprof)]
+    if nprof >= 2:
+        # at least one concretisation runs with the manager's own logging switched on (its default in production)
+        profiles[-1] = Profile(seed * 7 + nprof - 1, log_level=20 if seed % 2 == 0 else 10)
     runs = engine.replay_all(behs, profiles)
     verdicts = engine.run_and_validate([{"tid": r["tid"], "ev": r["ev"]} for r in runs])
     violations = []
@@ -154,7 +157,7 @@ def run(prop: str, tier: str, seed: int) -> Dict[str, Any]:
 
 def replay(prop: str, path: str) -> Dict[str, Any]:
     rp = json.load(open(path))
-    prof = Profile(rp["profile"]["seed"])
+    prof = Profile(rp["profile"]["seed"], log_level=rp["profile"].get("log_level"))
     with engine.Quiet():
         h = replay_beh(rp["behaviour"], prof)
     v = engine.run_and_validate([{"tid": 1, "ev": h.events}])[1]
